@@ -299,9 +299,12 @@ class Target:
         self.tok = (r.json() or {}).get("token")
         if not self.tok:
             raise vf.NoVerdict("logon failed: %r %s" % (r, self.srv.log_text()[-1500:]))
-        r = self.srv.req("POST", "/dsns/", {"name": DSN, "provider": "sqlite", "database": self.dbfile, "restricted": False},
-                         token=self.tok, timeout=300)
-        if r.status not in (200, 201):
+        for attempt in range(4):      # on a badly overloaded machine the server has answered 400 "unexpected end of JSON input" here
+            r = self.srv.req("POST", "/dsns/", {"name": DSN, "provider": "sqlite", "database": self.dbfile, "restricted": False},
+                             token=self.tok, timeout=300)
+            if r.status in (200, 201, 409):
+                break
+        else:
             raise vf.NoVerdict("cannot create DSN: %r" % r)
         r = self.srv.req("GET", "/dsns/%s/tables/t1/rows" % DSN, token=self.tok, timeout=300)
         if r.status != 200 or len((r.json() or {}).get("rows") or []) != len(TABLE0):
